@@ -10,7 +10,7 @@ Grids == {<<16, 16>>, <<17, 16>>, <<17, 17>>, <<16, 24>>}
 Extents == {<<8, 8>>, <<8, 12>>, <<6, 18>>, <<18, 6>>}
 Energies == {80, 300}
 CutoffClasses == {"sub_pixel", "one_pixel", "mid", "mid_b", "near_nyquist", "beyond_axis_nyquist"}   \* the last: above the largest on-axis angle, below the corner angle
-Spreads == {0, 1, 2}          \* index into the harness' table of focal / angular spreads
+Spreads == {0, 1, 2, 3}       \* index into the harness' table of focal / angular spreads; 3 = a WEIGHTED series of spreads (every member is judged)
 AberrationSets == {"none", "defocus", "cs_defocus", "astigmatism", "coma"}
 Init == /\ \/ \E g \in Grids, x \in Extents, e \in Energies, cc \in CutoffClasses, s \in BOOLEAN :
                 c = [kind |-> "aperture", gpts |-> g, extent |-> x, energy |-> e, cutoff |-> cc, soft |-> s, spread |-> 0, ab |-> "none"]
